@@ -17,7 +17,7 @@ Inductive ccrule :=
 | CCAccNested      (* OpenACC compute construct inside an OpenACC compute construct                  *)
 | CCAccLoopOrphan  (* `acc loop` outside any compute construct in a routine without `acc routine`    *)
 | CCAccData        (* data / enter data construct inside an OpenACC compute construct                *)
-| CCMixed          (* OpenMP directive inside an OpenACC region or vice versa                        *)
+| CCMixed          (* OpenMP directive inside an OpenACC region / routine or vice versa              *)
 | CCLoopAssoc      (* loop-associated directive not applied to (exactly) one DO loop                 *)
 | CCCollapse       (* collapse(n) without n (perfectly, for OpenMP) nested loops                     *)
 | CCBranch         (* RETURN inside a structured block                                               *)
@@ -65,8 +65,9 @@ Definition cc_node (rk : list nkind) (p : list nkind * tree) : list (ccrule * nk
    then mk CCAccLoopOrphan None else []) ++
   (if mem k [ND ACCData; NS ACCEnterData] && any_in acc_compute anc
    then mk CCAccData (nearest acc_compute anc) else []) ++
-  (if (mem k omp_all && any_in acc_exec anc) then mk CCMixed (nearest acc_exec anc) else []) ++
-  (if (mem k acc_exec && any_in omp_regions anc) then mk CCMixed no else []) ++
+  (if (mem k omp_all && any_in acc_regions anc) then mk CCMixed (nearest acc_regions anc) else []) ++
+  (if (mem k acc_all && any_in omp_regions anc) then mk CCMixed no else []) ++
+  (if (mem k omp_all && mem (NS ACCRoutine) rk) then mk CCMixed (Some (NS ACCRoutine)) else []) ++
   (match n with
    | Dir d _ b =>
        if mem (ND d) [ND OMPDo; ND OMPParallelDo; ND OMPTeamsParDo; ND OMPLoop; ND OMPTaskloop]
